@@ -61,12 +61,10 @@ PickState ==
     \E SL \in {after[N]} : \E AL \in {ChainOf(E, SL)} :
     \E dis \in {{e \in AL \cup SL : CanDisallow(e)}} :
     \E f \in FaultChoices(AL \cup SL, LAMBDA x : StateApp(x, SL, CitedBy(E, AL \cup SL), dis)) :
-       LET F == Ext(f, NoFault)
-           EM == Mutated(F)
-           pre == CheckState(EM, F, [i \in Ids |-> "returns"], AL, SL)
-       IN \E p \in ProvChoices(pre.askmax \cap Ids) :
-             LET P == Ext(p, "returns")
-                 out == CheckState(EM, F, P, AL, SL) IN
+       \E F \in {Ext(f, NoFault)} : \E EM \in {Mutated(F)} :
+       \E pre \in {CheckState(EM, F, [i \in Ids |-> "returns"], AL, SL)} :
+          \E p \in ProvChoices(pre.askmax \cap Ids) :
+             \E P \in {Ext(p, "returns")} : \E out \in {CheckState(EM, F, P, AL, SL)} :
              /\ sc' = [Blank EXCEPT !.EM = EM, !.F = F, !.P = P, !.al = AL, !.sl = SL,
                                     !.fail = out.fail, !.auth = out.auth, !.state = out.state,
                                     !.askmin = out.askmin, !.askmax = out.askmax]
@@ -83,14 +81,12 @@ PickSendJoin ==
     /\ \E j \in {N} : \E SL \in {StateBefore(j)} : \E AL \in {ChainOf(E, SL)} :
        \E dis \in {{e \in AL \cup SL : CanDisallow(e)}} :
        \E f \in FaultChoices(AL \cup SL, LAMBDA x : StateApp(x, SL, CitedBy(E, AL \cup SL \cup {j}), dis)) :
-          LET F == Ext(f, NoFault)
-              EM == Mutated(F)
-              pre == CheckState(EM, F, [i \in Ids |-> "returns"], AL, SL)
-          IN \E p \in ProvChoices(pre.askmax \cap Ids) :
+          \E F \in {Ext(f, NoFault)} : \E EM \in {Mutated(F)} :
+          \E pre \in {CheckState(EM, F, [i \in Ids |-> "returns"], AL, SL)} :
+             \E p \in ProvChoices(pre.askmax \cap Ids) :
                 \* the join event may also ask for auth events that were dropped: one common behaviour for those
                 \E pb \in (IF Sim THEN {RandomElement(ProvKinds)} ELSE ProvKinds) :
-                   LET P == Ext(p, pb)
-                       out == CheckSendJoin(EM, F, P, AL, SL, j) IN
+                   \E P \in {Ext(p, pb)} : \E out \in {CheckSendJoin(EM, F, P, AL, SL, j)} :
                    /\ (~Sim /\ pb # "returns" => (out.askmax \ pre.askmax) # {})
                    /\ sc' = [Blank EXCEPT !.EM = EM, !.F = F, !.P = P, !.al = AL, !.sl = SL, !.j = j,
                                           !.fail = CheckState(EM, F, P, AL, SL).fail,
@@ -115,9 +111,8 @@ PickChain ==
     \E e \in {N} : \E R \in {ChainOf(E, {e}) \cup {e}} :
     \E dis \in {{x \in R : CanDisallow(x)}} :
     \E d \in FaultChoices(R, LAMBDA x : ChainApp(x, e, dis)) :
-       LET F == FOf(d)  P == POf(d)  EM == Mutated(F)
-           ok == AuthChainOK(EM, F, P, e)
-           reach == CitedBy(EM, ChainReach(EM, P, e)) IN
+       \E F \in {FOf(d)} : \E P \in {POf(d)} : \E EM \in {Mutated(F)} :
+       \E ok \in {AuthChainOK(EM, F, P, e)} : \E reach \in {CitedBy(EM, ChainReach(EM, P, e))} :
        /\ sc' = [Blank EXCEPT !.EM = EM, !.F = F, !.P = P, !.e = e, !.ok = ok,
                               !.askmin = IF ok THEN reach ELSE {}, !.askmax = reach]
        /\ phase' = "done"
@@ -142,7 +137,7 @@ PickAtState ==
        LET e == t[1]  k == t[2]  av == t[3]  pm == t[4]
            S == IF k = 0 THEN StateBefore(e) ELSE after[k] IN
        \E fe \in (IF Sim THEN {RandomElement(AtFaults(e))} ELSE AtFaults(e)) :
-          LET F == Ext([x \in {e} |-> fe], NoFault)  EM == Mutated(F) IN
+          \E F \in {Ext([x \in {e} |-> fe], NoFault)} : \E EM \in {Mutated(F)} :
           /\ sc' = [Blank EXCEPT !.EM = EM, !.F = F, !.e = e, !.s = S, !.av = av, !.pm = pm,
                                  !.ok = AuthAtState(EM, F, e, S, av, pm)]
           /\ phase' = "done"
@@ -161,10 +156,11 @@ PickLoad ==
     \E dis \in {{x \in Ids : CanDisallow(x)}} :
     \E d \in FaultChoices(Ids, LAMBDA x : LoadApp(x, dis)) :
     \E sk \in (IF Sim THEN {RandomElement({0, N})} ELSE {0, N}) :
-       LET F == FOf(d)  P == POf(d)  EM == Mutated(F)
-           sb == [e \in Ids |-> IF sk = 0 THEN StateBefore(e) ELSE after[sk]] IN
+       \E F \in {FOf(d)} : \E P \in {POf(d)} : \E EM \in {Mutated(F)} :
+       \E sb \in {[e \in Ids |-> IF sk = 0 THEN StateBefore(e) ELSE after[sk]]} :
+       \E loc \in {LocalOK(EM, F, P)} :
        /\ sc' = [Blank EXCEPT !.EM = EM, !.F = F, !.P = P, !.sb = sb,
-                              !.cls = [e \in Ids |-> LoadClass(EM, F, P, e, sb[e])]]
+                              !.cls = [e \in Ids |-> LoadClass(EM, F, P, loc, e, sb[e])]]
        /\ phase' = "done"
 
 Pick == CASE Kind = "state" -> PickState
@@ -210,7 +206,7 @@ BadNeverVerifies ==
     Done =>
         CASE Kind = "chain" -> BadEvent(sc.F, sc.e) => ~sc.ok
           [] Kind = "atstate" -> (BadEvent(sc.F, sc.e) /\ ~sc.av /\ sc.s = StateBefore(sc.e)) => ~sc.ok
-          [] Kind = "load" -> \A e \in Ids : BadEvent(sc.F, e) => sc.cls[e] \in {"sig", "chain"}
+          [] Kind = "load" -> \A e \in Ids : BadEvent(sc.F, e) => sc.cls[e] \in {"invalid", "sig", "chain"}
           [] OTHER -> TRUE
 AskBounds == Done => sc.askmin \subseteq sc.askmax
 
